@@ -520,6 +520,8 @@ func runScenario(d *driver, kind string) {
 			d.round(li)
 			d.round(li)
 		}
+	case "legacy":
+		d.legacyScenario()
 	case "storm":
 		d.storm()
 	case "recompute":
